@@ -129,7 +129,7 @@ def check(rep: Report, ctx: Ctx) -> None:
                                 f"'{unparse(v)[:40]}' outside vocabulary")
 
     # ---- R13.2 ---------------------------------------------------------------
-    rep.rule("R13.2", "the three field tables agree", 3)
+    rep.rule("R13.2", "the three field tables agree", 4)
     ev = ctx.index.cls("OTelEvent")
     fm = ctx.index.cls("OTelFieldMapping")
     ev_f = [n for n, _ in ev.fields()]
@@ -138,6 +138,21 @@ def check(rep: Report, ctx: Ctx) -> None:
            set(ev_f) == set(fm_f), detail=f"OTelEvent {ev_f}; mapping {fm_f}")
     rep.obligations[-1].func = fm.qualname
     rep.obligations[-1].file = fm.module.relpath
+    # "invalid records are skipped" makes the event model the definition of
+    # a valid record: fields present and of the declared types.  A validator
+    # that rejects (or rewrites) beyond that silently drops (changes) spans
+    # the documented extraction yields - every ValidationError is skipped
+    # without a trace
+    from .util import model_rejects, model_rewrites
+    probs = model_rejects(ctx, "OTelEvent") + model_rewrites(ctx, "OTelEvent")
+    rep.ob("R13.2", "a span is valid when its fields are present and typed: "
+           "the event model neither rejects nor rewrites beyond that",
+           not probs, detail="; ".join(p[1] for p in probs)[:300] or
+           "no validator, no transforming option on OTelEvent")
+    rep.obligations[-1].func = ev.qualname
+    rep.obligations[-1].file = ev.module.relpath
+    rep.obligations[-1].line = probs[0][0].lineno if probs else \
+        ev.node.lineno
     tfm = ctx.func("OTelFieldMapping.to_field_mapping")
     keys: dict[str, str] = {}
     for n in ast.walk(tfm.node):
